@@ -67,7 +67,7 @@ def enc(v):
     if isinstance(v, int):
         return f"{v}/1"
     if isinstance(v, float):
-        return {"f": repr(v)}
+        return {"f": repr(float(v))}
     try:
         import numpy as np
 
